@@ -268,7 +268,13 @@ func c03Run(c *explore.Ctx, v c03Variant, seq []int) int {
 					completed[o.n] = true
 					outstanding = append(outstanding[:j], outstanding[j+1:]...)
 				case !o.recd:
-					s.Send(&refmqtt.Packet{Type: refmqtt.PUBREC, PacketID: o.id})
+					// v5 subscribers with Receive Maximum 2 answer with the success-class reason code
+					// 0x10 (no matching subscribers): the flow continues exactly as with 0x00
+					rc := byte(0)
+					if v.version == refmqtt.V5 && v.recvMax == 2 {
+						rc = 0x10
+					}
+					s.Send(&refmqtt.Packet{Type: refmqtt.PUBREC, PacketID: o.id, Code: rc})
 					vsched.Settle()
 					rx := s.Recv()
 					if len(rx) < 1 || rx[0].P == nil || rx[0].P.Type != refmqtt.PUBREL || rx[0].P.PacketID != o.id {
@@ -359,7 +365,7 @@ func payloadN(p *refmqtt.Packet) int {
 
 func runC03(c *explore.Ctx) {
 	c.Level = "model_checking"
-	c.Rule = "E2: every sequence of {publish QoS1, publish QoS2, subscriber acks oldest / newest outstanding (PUBACK, PUBREC->PUBREL, PUBCOMP), v5 PUBREC error, cut, reconnect clean0, take-over clean0} up to the depth, for subscriber variants (v5 Receive Maximum 1/2/3 vs max_inflight, v3.1.1 with max_inflight 1/2), on a fresh in-process broker; a wire monitor on the subscriber socket checks after every event: ids non-zero and distinct among outstanding PUBLISH/PUBREL, window never exceeded and never idle while messages wait, DUP=0 first, after every reconnect exactly the outstanding entries first (same id, DUP=1 or PUBREL) in order, completed ones never again, FIFO for new ones. Plus E1 on the packet-id limiter."
+	c.Rule = "E2: every sequence of {publish QoS1, publish QoS2, subscriber acks oldest / newest outstanding (PUBACK, PUBREC->PUBREL, PUBCOMP; one v5 variant answers PUBREC with the success-class code 0x10), v5 PUBREC error, cut, reconnect clean0, take-over clean0} up to the depth, for subscriber variants (v5 Receive Maximum 1/2/3 vs max_inflight, v3.1.1 with max_inflight 1/2), on a fresh in-process broker; a wire monitor on the subscriber socket checks after every event: ids non-zero and distinct among outstanding PUBLISH/PUBREL, window never exceeded and never idle while messages wait, DUP=0 first, after every reconnect exactly the outstanding entries first (same id, DUP=1 or PUBREL) in order, completed ones never again, FIFO for new ones. Plus E1 on the packet-id limiter."
 	c.Trusted = []string{"vsched default schedule", "refmqtt codec"}
 	if rc := replayCase(c); rc != nil {
 		if concReplay(c, rc, "C03") {
